@@ -55,8 +55,8 @@ type sn struct {
 	desc      string
 	presence  bool
 	mandatory bool
-	min, max  int // 0 = unset
-	unbStmt   bool // "max-elements unbounded" is stated (max == 0)
+	min, max  int    // 0 = unset
+	unbStmt   bool   // "max-elements unbounded" is stated (max == 0)
 	resolved  string // type the leafref of this copy leads to (typ is the typedef c01lr: leafref "../rid")
 	keys      []string
 	typ       string
